@@ -197,3 +197,78 @@ def rule_predspec(ctx, prop: str) -> RuleResult:
         res.add(Finding("PREDSPEC", NE, f.lineno, "Check_ParallelizeLoop", "forall-i<j", "the race condition must quantify over two *distinct* iterations i < i' of the loop"))
     res.floor = 15
     return res
+
+
+def rule_checkform(ctx, prop: str) -> RuleResult:
+    """Shape of the remaining effect checks used as post-/pre-conditions of rewrites."""
+    from .. import pat
+
+    ix = ctx.ix
+    res = RuleResult("CHECKFORM")
+    m = ix.module(NE)
+
+    def need(ok, f, key, msg, sample=""):
+        res.instances += 1
+        res.nontrivial += 1
+        res.ob(ok)
+        if sample:
+            res.sample(sample)
+        if not ok:
+            res.add(Finding("CHECKFORM", NE, f.lineno, f.qualname, key, msg))
+
+    def bound_kind(f: Func, var: str) -> Optional[Tuple[str, str]]:
+        """(ES kind, source expression text) of `var = getsets([ES.K], src)[0]`."""
+        for n in f.body_nodes():
+            if isinstance(n, ast.Assign) and isinstance(n.targets[0], ast.Name) and n.targets[0].id == var:
+                v = n.value
+                if isinstance(v, ast.Subscript) and isinstance(v.value, ast.Call) and last_name(v.value) == "getsets":
+                    ks = [dotted(e).split(".")[-1] for e in v.value.args[0].elts]
+                    return ks[0], ast.unparse(v.value.args[1])
+        return None
+
+    def src_is(f: Func, var: str, call: str) -> bool:
+        for n in f.body_nodes():
+            if isinstance(n, ast.Assign) and isinstance(n.targets[0], ast.Name) and n.targets[0].id == var:
+                return any(isinstance(x, ast.Call) and last_name(x) == call for x in ast.walk(n.value))
+        return False
+
+    # Check_Bounds: every access to the buffer lies in { 0 <= i_k < n_k }
+    f = m.func("Check_Bounds")
+    res.analysed.append(f"{NE}:Check_Bounds")
+    g = pat.find("_M_ok = _M_s.verify(ADef(is_empty(LDiff(_M_acc, _M_alloc))))", f.node)
+    need(g is not None, f, "acc∖alloc=∅", "Check_Bounds must prove (accesses to the buffer) ∖ (allocated region) definitely empty")
+    if g is not None:
+        acc = ast.unparse(g[1]["_M_acc"])
+        a2 = pat.find(f"{acc} = LIsct(_M_all, LS.WholeBuf(_M_nm, _M_nd))", f.node)
+        ok = a2 is not None and (bound_kind(f, ast.unparse(a2[1]["_M_all"])) or ("", ""))[0] == "ALL"
+        need(ok, f, "acc=ALL∩buffer", "the accesses considered must be ALL effects (reads, writes, reductions) on the buffer")
+        need(pat.has("AAnd(AInt(0) <= AInt(_M_i), AInt(_M_i) < lift_e(_M_n))", f.node), f, "0<=i<n", "the allocated region is 0 <= i < n in every dimension")
+        okv = ast.unparse(g[1]["_M_ok"])
+        need(any(isinstance(n, ast.If) and isinstance(n.test, ast.UnaryOp) and ast.unparse(n.test.operand) == okv and any(isinstance(x, ast.Raise) for x in n.body) for n in f.body_nodes()), f, "raise", "an unproved bound must raise")
+    # Check_IsDeadAfter: nothing after the statement touches the buffer
+    f = m.func("Check_IsDeadAfter")
+    res.analysed.append(f"{NE}:Check_IsDeadAfter")
+    g = pat.find("_M_ok = _M_s.verify(ADef(is_empty(LIsct(_M_all, _M_buf))))", f.node)
+    ok = False
+    if g is not None:
+        bk = bound_kind(f, ast.unparse(g[1]["_M_all"]))
+        ok = bk is not None and bk[0] == "ALL" and src_is(f, bk[1], "get_posteffs") and pat.has(f"{ast.unparse(g[1]['_M_buf'])} = LS.WholeBuf(_M_a, _M_b)", f.node)
+    need(ok, f, "post-ALL∩buf=∅", "Check_IsDeadAfter must prove that ALL effects of the code *after* the statement are disjoint from the whole buffer")
+    # Check_BufferReduceOnly
+    f = m.func("Check_BufferReduceOnly")
+    res.analysed.append(f"{NE}:Check_BufferReduceOnly")
+    ok = False
+    for n in f.body_nodes():
+        if isinstance(n, ast.Call) and last_name(n) == "LIsct" and len(n.args) == 2:
+            names = [ast.unparse(a) for a in n.args]
+            kinds = [bound_kind(f, x) for x in names]
+            if any(k is not None and k[0] == "READ_WRITE" for k in kinds):
+                ok = True
+    ok = ok and any(pat.has("_M_s.verify(ADef(is_empty(_M_x)))", n) for n in [f.node])
+    need(ok, f, "READ_WRITE∩buf=∅", "accumulating stage_mem requires that the buffer is only reduced into: READ_WRITE effects on it must be definitely empty")
+    # Check_IsIdempotent: Shadows(a, a)
+    f = m.func("Check_IsIdempotent")
+    g = pat.find("Shadows(_M_a, _M_a)", f.node)
+    need(g is not None and pat.has("_M_s.verify(ADef(Shadows(_M_a, _M_a)))", f.node), f, "Shadows(a,a)", "idempotence is `a` shadowing itself, definitely")
+    res.floor = 7
+    return res
